@@ -2,6 +2,7 @@
 use crate::proc::{self, LineWorker, WorkerError};
 use crate::src::Src;
 use proptest::prelude::*;
+use proptest::strategy::ValueTree;
 use proptest::test_runner::{Config, RngAlgorithm, RngSeed, TestCaseError, TestError, TestRunner};
 use serde_json::{json, Value};
 use std::collections::hash_map::DefaultHasher;
@@ -170,6 +171,10 @@ pub trait Check: Sync + Send {
     /// before the harness concludes that it does not reproduce, and then the original observation is reported
     fn reexec_attempts(&self) -> usize {
         1
+    }
+    /// coverage-guided stage of the thorough tier (fuzz/): executions per libFuzzer process (0 = no such stage)
+    fn fuzz_runs(&self) -> u64 {
+        0
     }
 }
 
@@ -388,7 +393,7 @@ pub fn run_random(check: Arc<dyn Check>, tier: Tier, seed: u64, node_path: &str,
 pub fn shrink_stream(check: &dyn Check, ctx: &mut Ctx, tier: Tier, data: Vec<u32>, sig: &str, budget: usize) -> Vec<u32> {
     let mut best = data;
     let mut spent = 0usize;
-    let mut fails = |cand: &[u32], ctx: &mut Ctx, spent: &mut usize| -> bool {
+    let fails = |cand: &[u32], ctx: &mut Ctx, spent: &mut usize| -> bool {
         *spent += 1;
         let mut s = Src::new(cand);
         let case = check.generate(&mut s, tier);
@@ -440,6 +445,230 @@ pub fn shrink_stream(check: &dyn Check, ctx: &mut Ctx, tier: Tier, data: Vec<u32
         }
     }
     best
+}
+
+// ------------------------------------------------------------------------------------------------
+// coverage-guided stage (thorough tier): libFuzzer over the choice stream, see fuzz/fuzz_targets/stream.rs
+// ------------------------------------------------------------------------------------------------
+
+pub fn fuzz_binary() -> String {
+    format!("{}/harness/fuzz/target/x86_64-unknown-linux-gnu/release/stream", proc::verif_root())
+}
+
+fn stream_bytes(data: &[u32]) -> Vec<u8> {
+    data.iter().flat_map(|x| x.to_le_bytes()).collect()
+}
+fn bytes_stream(data: &[u8]) -> Vec<u32> {
+    data.chunks_exact(4).map(|c| u32::from_le_bytes([c[0], c[1], c[2], c[3]])).collect()
+}
+
+/// Runs `jobs` libFuzzer processes over one shared corpus (seeded with proptest-drawn streams), then judges every
+/// stream they saved (violations found in-target, crash / timeout / oom artifacts) again through the ordinary
+/// subprocess path with the ordinary known-finding tolerance; what still fails is shrunk and reported like any
+/// other failure.  Returns (coverage report, infra note, found).
+pub fn fuzz_stage(check: Arc<dyn Check>, seed: u64, node_path: &str, open: &BTreeSet<String>) -> (Value, Vec<Found>) {
+    let id = check.id();
+    let runs = std::env::var("VERIF_FUZZ_RUNS").ok().and_then(|s| s.parse().ok()).unwrap_or(check.fuzz_runs());
+    if runs == 0 {
+        return (Value::Null, vec![]);
+    }
+    let bin = fuzz_binary();
+    if !std::path::Path::new(&bin).exists() {
+        return (json!({"skipped": "the libFuzzer target is not built (cargo +nightly fuzz build failed or was not attempted; see work/build-fuzz.log)"}), vec![]);
+    }
+    let t0 = Instant::now();
+    let dir = format!("{}/fuzz-{}", proc::work_dir(), id);
+    let _ = std::fs::remove_dir_all(&dir);
+    for d in ["corpus", "artifacts", "violations"] {
+        let _ = std::fs::create_dir_all(format!("{}/{}", dir, d));
+    }
+    // starting corpus: streams drawn like the random stage draws them (a pure function of the seed)
+    {
+        let mut runner = TestRunner::new(Config { rng_seed: RngSeed::Fixed(seed ^ salt(id, 99)), rng_algorithm: RngAlgorithm::ChaCha, failure_persistence: None, ..Config::default() });
+        let strategy = proptest::collection::vec(any::<u32>(), 0..=check.stream_len());
+        for i in 0..96 {
+            if let Ok(t) = strategy.new_tree(&mut runner) {
+                let _ = std::fs::write(format!("{}/corpus/seed-{:03}", dir, i), stream_bytes(&t.current()));
+            }
+        }
+    }
+    let jobs: usize = std::env::var("VERIF_FUZZ_JOBS").ok().and_then(|s| s.parse().ok()).unwrap_or(8);
+    let mut children = vec![];
+    for j in 0..jobs {
+        let log = std::fs::File::create(format!("{}/job-{}.log", dir, j)).ok();
+        let mut cmd = std::process::Command::new(&bin);
+        cmd.arg(format!("-runs={}", runs))
+            .arg(format!("-seed={}", ((seed ^ salt(id, 200 + j)) % 0x7fff_fffe) + 1))
+            .arg(format!("-max_len={}", check.stream_len() * 4))
+            .arg("-len_control=0")
+            .arg("-timeout=300")
+            .arg("-rss_limit_mb=6000")
+            .arg("-print_final_stats=1")
+            .arg(format!("-artifact_prefix={}/artifacts/j{}-", dir, j))
+            .arg(format!("{}/corpus", dir))
+            .env("BEFFV_FUZZ_ID", id)
+            .env("BEFFV_INPROC", "1")
+            .env("BEFFV_FUZZ_DIR", &dir)
+            .env("VERIF_ROOT", proc::verif_root())
+            .stdout(std::process::Stdio::null());
+        match log {
+            Some(f) => {
+                cmd.stderr(f);
+            }
+            None => {
+                cmd.stderr(std::process::Stdio::null());
+            }
+        }
+        if let Ok(c) = cmd.spawn() {
+            children.push(c);
+        }
+    }
+    // wall-clock budget: a campaign that is cut short is reported as such (never a verdict by itself)
+    let budget = std::time::Duration::from_secs(std::env::var("VERIF_FUZZ_BUDGET_S").ok().and_then(|s| s.parse().ok()).unwrap_or(2400));
+    let mut cut_short = 0;
+    let mut abnormal = 0;
+    for c in &mut children {
+        loop {
+            match c.try_wait() {
+                Ok(Some(st)) => {
+                    if !st.success() {
+                        abnormal += 1;
+                    }
+                    break;
+                }
+                Ok(None) => {
+                    if t0.elapsed() > budget {
+                        let _ = c.kill();
+                        let _ = c.wait();
+                        cut_short += 1;
+                        break;
+                    }
+                    std::thread::sleep(std::time::Duration::from_millis(200));
+                }
+                Err(_) => break,
+            }
+        }
+    }
+    // statistics written by the target
+    let mut cases = 0u64;
+    let mut evals = 0u64;
+    let mut nontrivial: BTreeSet<u64> = BTreeSet::new();
+    let mut labels: BTreeMap<String, u64> = BTreeMap::new();
+    let mut known: BTreeMap<String, u64> = BTreeMap::new();
+    let mut excluded: BTreeMap<String, u64> = BTreeMap::new();
+    let mut in_target: BTreeMap<String, u64> = BTreeMap::new();
+    let mut samples: Vec<Value> = vec![];
+    let mut infra_cases = 0u64;
+    let mut saved: Vec<(String, Vec<u32>)> = vec![];
+    if let Ok(rd) = std::fs::read_dir(&dir) {
+        let mut names: Vec<_> = rd.flatten().map(|e| e.path()).collect();
+        names.sort();
+        for pth in names {
+            let name = pth.file_name().and_then(|n| n.to_str()).unwrap_or("").to_string();
+            if !name.starts_with("stats-") {
+                continue;
+            }
+            let v: Value = std::fs::read_to_string(&pth).ok().and_then(|t| serde_json::from_str(&t).ok()).unwrap_or(Value::Null);
+            cases += v["cases"].as_u64().unwrap_or(0);
+            evals += v["evals"].as_u64().unwrap_or(0);
+            infra_cases += v["infra"].as_u64().unwrap_or(0);
+            for x in v["nontrivial"].as_array().cloned().unwrap_or_default() {
+                if let Some(n) = x.as_u64() {
+                    nontrivial.insert(n);
+                }
+            }
+            for (m, key) in [(&mut labels, "labels"), (&mut known, "known"), (&mut excluded, "excluded"), (&mut in_target, "violations")] {
+                if let Some(o) = v[key].as_object() {
+                    for (k, n) in o {
+                        *m.entry(k.clone()).or_insert(0) += n.as_u64().unwrap_or(0);
+                    }
+                }
+            }
+            for smp in v["samples"].as_array().cloned().unwrap_or_default() {
+                if samples.len() < 3 {
+                    samples.push(smp);
+                }
+            }
+        }
+    }
+    for sub in ["violations", "artifacts"] {
+        if let Ok(rd) = std::fs::read_dir(format!("{}/{}", dir, sub)) {
+            let mut names: Vec<_> = rd.flatten().map(|e| e.path()).collect();
+            names.sort();
+            for pth in names {
+                let name = format!("{}/{}", sub, pth.file_name().and_then(|n| n.to_str()).unwrap_or(""));
+                if sub == "violations" {
+                    let v: Value = std::fs::read_to_string(&pth).ok().and_then(|t| serde_json::from_str(&t).ok()).unwrap_or(Value::Null);
+                    let ch: Vec<u32> = serde_json::from_value(v["choices"].clone()).unwrap_or_default();
+                    saved.push((name, ch));
+                } else if let Ok(b) = std::fs::read(&pth) {
+                    saved.push((name, bytes_stream(&b)));
+                }
+            }
+        }
+    }
+    let corpus_size = std::fs::read_dir(format!("{}/corpus", dir)).map(|r| r.count()).unwrap_or(0);
+    // coverage counters of the first job, for the record
+    let cov_line = std::fs::read_to_string(format!("{}/job-0.log", dir))
+        .ok()
+        .and_then(|t| t.lines().rev().find(|l| l.contains(" cov: ")).map(|l| l.trim().to_string()))
+        .unwrap_or_default();
+    // every saved stream is judged again by the ordinary path (subprocess compiler with its watchdog, ordinary tolerance)
+    let mut found: Vec<Found> = vec![];
+    let mut rejudged = vec![];
+    let mut seen_sig: BTreeSet<String> = BTreeSet::new();
+    let mut ctx = Ctx::new(node_path, Tier::Thorough, open.clone());
+    for (name, data) in saved.iter().take(40) {
+        let mut s = Src::new(data);
+        let case = check.generate(&mut s, Tier::Thorough);
+        let out = check.exec(&case, &mut ctx);
+        let verdict = if let Some(i) = &out.infra {
+            format!("inconclusive: {}", i)
+        } else if let Some(v) = &out.violation {
+            if seen_sig.insert(v.signature.clone()) {
+                ctx.shrinking = true;
+                let budget = if v.signature.contains("hang") { 40 } else { 400 };
+                let minimal = shrink_stream(check.as_ref(), &mut ctx, Tier::Thorough, data.clone(), &v.signature, budget);
+                ctx.shrinking = false;
+                let mut s2 = Src::new(&minimal);
+                let case2 = check.generate(&mut s2, Tier::Thorough);
+                let out2 = check.exec(&case2, &mut ctx);
+                match out2.violation {
+                    Some(v2) => found.push(Found { violation: v2, case: case2, choices: minimal, seed }),
+                    None => found.push(Found { violation: v.clone(), case: case.clone(), choices: data.clone(), seed }),
+                }
+            }
+            format!("violation: {}", v.signature)
+        } else if !out.known.is_empty() {
+            format!("listed finding: {}", out.known.join(", "))
+        } else {
+            "holds when judged again (a time or memory limit of the fuzzing process, not a verdict)".to_string()
+        };
+        rejudged.push(json!({"saved_input": name, "verdict": verdict}));
+    }
+    let _ = std::fs::remove_dir_all(&dir);
+    let report = json!({
+        "engine": "libFuzzer (cargo-fuzz, no sanitizer: beff is safe Rust) over the generators' choice stream; oracle = this check's own exec, compiler / engine in-process for coverage feedback",
+        "processes": children.len(),
+        "runs_per_process": runs,
+        "executions": cases,
+        "oracle_evaluations": evals,
+        "distinct_nontrivial": nontrivial.len(),
+        "corpus_units_at_end": corpus_size,
+        "starting_corpus": 96,
+        "final_coverage_line_job0": cov_line,
+        "labels": labels,
+        "known_findings_tolerated": known,
+        "excluded_by_construction": excluded,
+        "in_target_violation_signatures": in_target,
+        "inconclusive_cases": infra_cases,
+        "processes_cut_short_by_budget": cut_short,
+        "processes_ended_abnormally": abnormal,
+        "saved_inputs_judged_again": rejudged,
+        "samples": samples,
+        "wall_s": t0.elapsed().as_secs_f64(),
+    });
+    (report, found)
 }
 
 // ------------------------------------------------------------------------------------------------
@@ -593,6 +822,19 @@ pub fn run_check(check: Arc<dyn Check>, tier: Tier, seed: u64) -> i32 {
         return 2;
     }
 
+    // 4. coverage-guided stage (thorough tier only)
+    let mut fuzz_report = Value::Null;
+    if tier == Tier::Thorough || std::env::var("VERIF_FUZZ_RUNS").is_ok() {
+        let (rep, f) = fuzz_stage(check.clone(), seed, &node_path, &open);
+        if let Some(n) = rep["executions"].as_u64() {
+            println!("{} coverage-guided stage: {} executions in {} processes, {} distinct non-trivial, {} saved inputs judged again", id, n, rep["processes"], rep["distinct_nontrivial"], rep["saved_inputs_judged_again"].as_array().map(|a| a.len()).unwrap_or(0));
+        } else if let Some(sk) = rep["skipped"].as_str() {
+            eprintln!("NOTE: coverage-guided stage skipped: {}", sk);
+        }
+        fuzz_report = rep;
+        found.extend(f);
+    }
+
     // distinct root causes only
     let mut seen = BTreeSet::new();
     for f in &found {
@@ -635,6 +877,7 @@ pub fn run_check(check: Arc<dyn Check>, tier: Tier, seed: u64) -> i32 {
             "known_findings_tolerated": stats.known,
             "excluded_by_construction": stats.excluded,
             "witnesses": witness_notes,
+            "coverage_guided_stage": fuzz_report,
             "exhaustive": false,
         },
         "assumptions": check.assumptions(),
